@@ -104,6 +104,24 @@ fn cmd_worker(args: &[String]) -> i32 {
     let offset = arg_u64(args, "--offset", 0);
     let out_dir = arg(args, "--out").unwrap_or("").to_string();
     let digests_only = arg(args, "--digests").is_some();
+    // watchdog (not part of the simulation): a single run that exceeds 180 s of wall clock is a hang
+    let started = std::sync::Arc::new(std::sync::atomic::AtomicU64::new(0));
+    let cur_idx = std::sync::Arc::new(std::sync::atomic::AtomicU64::new(0));
+    {
+        let started = started.clone();
+        let cur_idx = cur_idx.clone();
+        let t0 = std::time::Instant::now();
+        std::thread::spawn(move || loop {
+            std::thread::sleep(std::time::Duration::from_millis(1000));
+            let s = started.load(std::sync::atomic::Ordering::Relaxed);
+            let now = t0.elapsed().as_secs() + 1;
+            if s > 0 && now > s + 180 {
+                eprintln!("HARNESS ERROR: run {} did not finish within 180 s (hang)", cur_idx.load(std::sync::atomic::Ordering::Relaxed));
+                std::process::exit(3);
+            }
+        });
+    }
+    let wall0 = std::time::Instant::now();
     let stdout = std::io::stdout();
     let mut o = stdout.lock();
     let mut counters: BTreeMap<String, u64> = BTreeMap::new();
@@ -120,6 +138,8 @@ fn cmd_worker(args: &[String]) -> i32 {
     while i < to {
         writeln!(o, "B {}", i).ok();
         o.flush().ok();
+        cur_idx.store(i, std::sync::atomic::Ordering::Relaxed);
+        started.store(wall0.elapsed().as_secs() + 1, std::sync::atomic::Ordering::Relaxed);
         let out = run_one(seed, prop, fi, i);
         runs += 1;
         evals += out.stats.evals;
@@ -132,8 +152,13 @@ fn cmd_worker(args: &[String]) -> i32 {
                 writeln!(o, "V {} {}\t{}", i, v.sig, v.detail.replace('\n', " ")).ok();
             }
             End::Foreign(d) => {
-                *counters.entry("truncated_foreign_divergence".into()).or_insert(0) += 1;
-                writeln!(o, "F {} {}", i, d.replace('\n', " ")).ok();
+                if d.starts_with("journal START record unusable") {
+                    // a legitimate end of the deployment (the START record rotted), not a divergence
+                    *counters.entry("deployment_dead_after_start_record_rot".into()).or_insert(0) += 1;
+                } else {
+                    *counters.entry("truncated_foreign_divergence".into()).or_insert(0) += 1;
+                    writeln!(o, "F {} {}", i, d.replace('\n', " ")).ok();
+                }
             }
         }
         if digests_only {
@@ -335,6 +360,11 @@ fn spawn_batch(prop: usize, seed: u64, fi: bool, from: u64, to: u64, jobs: u64, 
             }
         }
         if !done {
+            if let Ok(stt) = &st {
+                if stt.code() == Some(3) {
+                    return Err(format!("worker {} reported a hung run", w));
+                }
+            }
             // the worker died (abort inside a library call): the run it had begun is the culprit
             match last_b {
                 Some(idx) => {
@@ -454,6 +484,7 @@ fn fresh_replay(path: &str) -> Result<Option<String>, String> {
 }
 
 fn cmd_check(args: &[String]) -> i32 {
+    quiet_panics();
     let t0 = std::time::Instant::now();
     let pid_s = arg(args, "--prop").unwrap_or("C10").to_string();
     let prop = prop_index(&pid_s);
@@ -697,6 +728,15 @@ fn cmd_check(args: &[String]) -> i32 {
         eprintln!("HARNESS ERROR: cannot write evidence {}: {}", ev_path, e);
         return 2;
     }
+    {
+        let mut seen: HashSet<String> = HashSet::new();
+        for (fi_flag, idx, d) in m.foreign.iter() {
+            let key: String = d.chars().take(40).collect();
+            if seen.insert(key) && seen.len() <= 4 {
+                println!("  note: run {} ({}) truncated: {}", idx, if *fi_flag { "FI" } else { "FF" }, d);
+            }
+        }
+    }
     println!(
         "{}: runs={} (FF {} + FI {}) evaluations={} distinct_nontrivial={} foreign_truncations={} wall={:.1}s -> {}",
         pid_s,
@@ -870,9 +910,11 @@ fn abort_discriminator(script: &[Step]) -> String {
     use ops::Op;
     match &script.last().unwrap().op {
         Op::ValidateBuilder { placement, stm, .. } => {
-            let men = placement.bytes().filter(|b| if *stm == model::Col::W { b.is_ascii_uppercase() } else { b.is_ascii_lowercase() }).count();
-            if men > 16 {
-                "men_of_side_to_move>16".into()
+            let _ = stm;
+            let w = placement.bytes().filter(|b| b.is_ascii_uppercase()).count();
+            let bl = placement.bytes().filter(|b| b.is_ascii_lowercase()).count();
+            if w.max(bl) > 16 {
+                "men_of_one_side>16".into()
             } else {
                 "ordinary_material".into()
             }
@@ -966,7 +1008,7 @@ fn cmd_replay(args: &[String]) -> i32 {
         }
     };
     let prop = prop_index(&rf.property);
-    if arg(args, "--print-sig").is_some() {
+    if args.iter().any(|a| a == "--print-sig") {
         // may abort: that is the expected outcome for abort replays
         let r = replay(&rf.script, armed_for(prop), false);
         if let Some(v) = r.violation {
@@ -1017,7 +1059,7 @@ fn cmd_run1(args: &[String]) -> i32 {
     let fi = arg_u64(args, "--fi", 0) == 1;
     let idx = arg_u64(args, "--idx", 0);
     let out = run_one(seed, prop, fi, idx);
-    if arg(args, "--script").is_some() {
+    if args.iter().any(|a| a == "--script") {
         for s in out.script.iter() {
             println!("{}", s.to_line());
         }
